@@ -58,7 +58,8 @@ ASSUMPTIONS = list(_c01.ASSUMPTIONS) + [
 REQUIRED = ['grouping_checks', 'states_built_by_new', 'permutation_checks', 'identity_checks',
             'operand_checks', 'result_checks', 'scribble_checks', 'reservoir_checks',
             'obj_api_checks', 'aggfn_api_checks', 'fresh_state_cases',
-            'nary_merge_states_checks'] + _c01.FAMILY_COUNTERS
+            'nary_merge_states_checks', 'nary_operand_checks',
+            'nary_operand_checks_4plus'] + _c01.FAMILY_COUNTERS
 EXHAUSTIVE = {'quick': False, 'thorough': False}
 CHUNK_TIMEOUT_S = {'quick': 240, 'thorough': 3000}
 
@@ -349,6 +350,27 @@ def check_case(ctx, case, reg):
         viol('operand_update_leaks_into_receiver', dict(where, update=y_rows), diffs=d)
     except _Raised as r:
       viol(r.step.replace(' ', '_') + '_raises', where, exc=r.exc)
+
+  # ---- 3b. n-ary merge: only the first state may change ---------------------------------
+  for _ in range(2):
+    k = rng.randint(3, 7)
+    hs = [drv.make() if (fed and rng.random() < 0.1) else drv.clone(states[rng.randrange(m)])
+          for _ in range(k)]
+    snaps = [drv.observe(h) for h in hs]
+    ctx.count('nary_operand_checks')
+    if k >= 4:
+      ctx.count('nary_operand_checks_4plus')
+    try:
+      _guard('merge', drv.merge, hs[0], hs[1:])
+    except _Raised as r:
+      viol('merge_raises', {'nary_states': k}, exc=r.exc)
+      continue
+    for pos in range(1, k):
+      d = A.compare_obs(ad, drv.observe(hs[pos]), snaps[pos])
+      if d:
+        viol('operand_changed_by_merge', {'receiver': 0, 'operand': pos, 'nary_states': k},
+             diffs=d)
+        break
 
   # ---- 4. result() is repeatable and does not disturb later updates ---------------------
   if rows:
